@@ -134,7 +134,9 @@ fn c07_eval(tape: &[u16], rep: &Report) -> Result<(), Fail> {
                 // result is unused together with its overflow / division-by-zero panic. Attributed only in the plain variant, when
                 // the build without the optimizer ends in an arithmetic abort, the optimized build got at least as far, and
                 // skipping exactly the `dce` sub-pass restores the abort.
-                if !no_trap && culprit == "dce" && abort_class(&a.end) == "arith" && b.logs.len() >= a.logs.len() && b.logs[..a.logs.len()] == a.logs[..] {
+                // (the sub-pass whose absence restores the abort is not always `dce` itself: constant propagation or move removal
+                // can be what makes the arithmetic instruction dead in the first place)
+                if !no_trap && culprit != "combination" && abort_class(&a.end) == "arith" && b.logs.len() >= a.logs.len() && b.logs[..a.logs.len()] == a.logs[..] {
                     rep.class("known:dead-arithmetic-abort-eliminated");
                     rep.violation(Violation { signature: SIG07_DEAD_TRAP.into(), summary: detail.clone(), replay: json!({"tape": tape, "level": lname, "src": src, "script_data": hex::encode(d), "detail": detail}) });
                     break;
